@@ -19,7 +19,7 @@ use rpki::repository::resources::{AsBlock, AsBlocks, AsResources, Asn, IpBlock, 
 use rpki::repository::roa::{Roa, RoaBuilder};
 use rpki::repository::rta::{AttestationBuilder, Rta};
 use rpki::repository::sigobj::{SignedObject, SignedObjectBuilder};
-use rpki::repository::tal::{Tal, TalInfo};
+use rpki::repository::tal::{Tal, TalInfo, TalUri};
 use rpki::repository::x509::{Serial, Time, Validity};
 use rpki::uri;
 use serde_json::{json, Value};
@@ -100,6 +100,8 @@ pub struct Ctx {
     pub pki: Pki,
     pub ta: ResourceCert,
     pub now: Time,
+    /// a trust anchor locator for the TA's key (built from the corpus' TAL)
+    pub tal: Option<Tal>,
     pub items: Vec<Item>,
     /// valid objects the library's own builders could not produce (they panicked)
     pub build_failures: Vec<(String, String)>,
@@ -281,7 +283,8 @@ impl Ctx {
                 add(e, f, b);
             }
         }
-        Ctx { pki, ta, now, items, build_failures }
+        let tal = items.iter().find(|i| i.entry == "tal" && i.name == "built").and_then(|i| Tal::read_named("t".into(), &mut &i.bytes[..]).ok());
+        Ctx { pki, ta, now, tal, items, build_failures }
     }
 }
 
@@ -450,11 +453,22 @@ fn sweep_rta(r: &Rta, ctx: &Ctx) -> usize {
     reenc("ResourceTaggedAttestation::encode_ref", || { use bcder::encode::Values; r.content().encode_ref().to_captured(Mode::Der) });
     for strict in [true, false] {
         if let Ok(mut v) = rpki::repository::rta::Validation::new_at(r, strict, ctx.now) {
+            if let Some(tal) = ctx.tal.as_ref() { let _ = v.supply_tal(tal); }
             let _ = v.supply_ca(&ctx.ta);
             let _ = v.finalize();
         }
+        // the wall-clock entry point as well
+        if let Ok(mut v) = rpki::repository::rta::Validation::new(r, strict) {
+            let _ = v.supply_ca(&ctx.ta);
+        }
     }
-    n
+    // a decoded attestation taken apart again: builder views of its certificates, CRLs and content, and writing it back
+    reenc("RtaBuilder::from_rta", || {
+        let b = rpki::repository::rta::RtaBuilder::from_rta(r.clone());
+        let _ = (b.certificates().len(), b.crls().len(), b.content().subject_keys().len());
+        b.finalize().to_captured()
+    });
+    n + 4
 }
 
 fn sweep_key(k: &PublicKey) -> usize {
@@ -488,6 +502,8 @@ fn sweep_msg(m: &SignedMessage, ctx: &Ctx) -> usize {
     4
 }
 
+thread_local! { static TAL_DIR: std::cell::RefCell<Option<std::path::PathBuf>> = const { std::cell::RefCell::new(None) }; }
+
 /// decode `bytes` through entry point `entry`; Ok(accessor calls) when something decoded
 pub fn decode_and_sweep(entry: &str, strict: bool, bytes: &[u8], ctx: &Ctx) -> Result<usize, ()> {
     let b = Bytes::copy_from_slice(bytes);
@@ -502,12 +518,28 @@ pub fn decode_and_sweep(entry: &str, strict: bool, bytes: &[u8], ctx: &Ctx) -> R
         "roa" => Roa::decode(b, strict).map(|r| sweep_roa(&r, ctx)).map_err(|_| ()),
         "aspa" => Aspa::decode(b, strict).map(|a| sweep_aspa(&a, ctx)).map_err(|_| ()),
         "rta" => Rta::decode(b, strict).map(|r| sweep_rta(&r, ctx)).map_err(|_| ()),
-        "tal" => Tal::read_named("x".into(), &mut &bytes[..]).map(|mut t| {
-            let n = t.uris().map(|u| (u.is_rsync(), u.is_https(), u.as_str().len())).count();
-            t.prefer_https();
-            let _ = t.info().name();
-            n + sweep_key(t.key_info())
-        }).map_err(|_| ()),
+        "tal" => {
+            // the same bytes through the path-taking reader, and (when they are small) as a file in a directory read by read_dir
+            let by_path = Tal::read("some/dir/x.tal", &mut &bytes[..]).map(|t| t.info().name().len());
+            let via_dir = if bytes.len() < 4096 { TAL_DIR.with(|d| {
+                let dir = d.borrow_mut().get_or_insert_with(|| { let p = std::env::temp_dir().join(format!("vh-tal-{}", std::process::id())); let _ = std::fs::create_dir_all(&p); p }).clone();
+                let _ = std::fs::write(dir.join("t.tal"), bytes);
+                let n = Tal::read_dir(&dir).map(|it| it.map(|r| r.map(|t| t.uris().count()).unwrap_or(0)).sum::<usize>()).unwrap_or(0);
+                let _ = std::fs::remove_file(dir.join("t.tal"));
+                n
+            }) } else { 0 };
+            let _ = (by_path.is_ok(), via_dir);
+            Tal::read_named("x".into(), &mut &bytes[..]).map(|mut t| {
+                let n = t.uris().map(|u| {
+                    // every URI of the file through TalUri's own parsers and back to text
+                    let again = (TalUri::from_string(u.as_str().to_string()).is_ok(), TalUri::from_slice(u.as_str().as_bytes()).is_ok(), u.as_str().parse::<TalUri>().is_ok(), u.to_string().len());
+                    (u.is_rsync(), u.is_https(), u.as_str().len(), again)
+                }).count();
+                t.prefer_https();
+                let _ = t.info().name();
+                n + 6 + sweep_key(t.key_info())
+            }).map_err(|_| ())
+        }
         "pubkey" => PublicKey::decode(b).map(|k| sweep_key(&k)).map_err(|_| ()),
         "csr" => {
             let a = RpkiCaCsr::decode(b.clone()).map(|c| {
